@@ -10,6 +10,15 @@ plus near-miss mutants.  On every pool the oracle checks, on the real code:
   eval(repr(v)) == v   (namespace: `from discopy.<module> import *`).
 Model correspondence: `repr(v)` against the model's `repr` (exact strings), `==` against the
 model's `eqv` / `beqv` / `seqv`.
+
+Values with a PAST (harness/c03hist.py): every generated diagram / box / type / sum / cat arrow is
+first used (hashed, keyed in dicts, sets and a functor's mapping, compared, printed), then values
+are derived from it (downgrade, dagger, slices, items, @, >>, upgrade, normal form, transpose,
+bubble, repr-eval; in-place mutation of a box's `data` last) and compared — ==, hash, dict / set /
+functor lookup, printed form — with a never-used twin and with a value rebuilt by fresh constructor
+calls from its own fields; `hash(x)` must not change between calls on an unmutated object.  The
+derived values' printed forms and `==` go to the model too (`dgrepr`, `dgeqv`, `dgboxrepr`:
+Model/Downgrade.lean).  Calling conventions: list- against tuple-valued constructor arguments.
 """
 import itertools
 import random
@@ -19,6 +28,7 @@ import core
 from common import Driver, Report, lean_obligations, err_class, ser_ty, ser_box, ser_list
 from core import Family, Gen, tok_expr, tok_ty, tok_box, ty_l, ty_r
 from sums import SumGen, run_sum, tok_sexpr
+import c03hist
 
 PROP = "C03"
 DOT = "·"
@@ -372,7 +382,14 @@ def run(tier, seed, replay=None):
                 "layer-wise composition in both bracketings, split, slices, items, double dagger, "
                 "unit tensors, bare box instance) plus 3-5 near-miss mutants; all pairs and triples "
                 "checked; non-trivial = pool of a value with >= 2 boxes / objects / terms; distinct "
-                "by (kind, family, token form of the value)")
+                "by (kind, family, token form of the value); history streams: each value is used in a "
+                "random subset of 8 ways (hash, hash / set of its boxes, dict key, functor mapping, hash of "
+                "its types, ==, repr; 10 % not at all), then 17-22 derivations (downgrade, dagger, slice, "
+                "item, tensor, composition, upgrade, normal form, transpose, bubble, repr-eval and their "
+                "compositions with downgrade) are compared with a never-used twin built through another "
+                "construction history and with a rebuild from the derived value's own fields, and one "
+                "of 5 in-place mutations of a box's data is compared with a fresh box carrying the new "
+                "payload; non-trivial = value with >= 2 boxes / objects / terms")
     rep.partial = [
         "`repr` determines the value up to ==: proved on the printed STRING (repr_inj, val_/sum_/"
         "reprBox_/reprTy_inj) under the explicit token-hygiene hypothesis TokensSafe (name and data "
@@ -381,6 +398,14 @@ def run(tier, seed, replay=None):
         "(ReprInjAnyData is an unproved def); that Python's eval rebuilds an equal value is runtime "
         "behaviour — `eval(repr(v)) == v` is executed by the oracle on every generated value",
         "bubbles and cat.Arrow values are checked by the oracle on the real code only (no model)",
+        "histories: the model's values carry no history and no identity, so that a value's hash / == / "
+        "printed form do not depend on what was done to it (or to the objects it shares) before is "
+        "checked by the oracle of the history streams on the real code; the model covers the derived "
+        "VALUES (downgrade_total, downgrade_eqv_congr, downgrade_repr_congr, reprM_congr, box_downgrade_spec; "
+        "in-place mutation = the value with the new payload); derivations through bubbles and values "
+        "mixing monoidal and rigid classes (upgrade after downgrade) are oracle-only",
+        "the printed form of a DOWNGRADED value does not determine it (downgraded_repr_not_inj): "
+        "repr_inj is not claimed for them; finding F43b",
     ]
     rep.assumptions = [
         "names are identifier-like strings or ints, data is None / numbers / lists and dicts of "
@@ -390,6 +415,11 @@ def run(tier, seed, replay=None):
         "names, not classes; the property speaks of values of the same class)",
         "eval namespace: `from discopy.<module> import *`; for rigid values additionally "
         "monoidal.Sum / monoidal.Bubble (rigid defines neither)",
+        "comparisons across classes (a rigid value against its downgrade, a Swap/Cup/Cap against the "
+        "generic box carrying the same name, PRO(n) against Ty) are outside the property (`of the same "
+        "class`): derived values are compared with values of their own classes",
+        "in-place mutation is applied to list- and dict-valued `data` only (the documented mutable "
+        "attribute, cat.py:539-551); names, types and the private fields are never mutated",
         "every __hash__ in scope is hash(repr(self)) except cat.Ob / rigid.Ob (hash of the compared "
         "fields): repr_congr is hash consistency",
     ]
@@ -597,6 +627,10 @@ def run(tier, seed, replay=None):
                              dict(arrow=repr(a)[:500]))
             rep.count("cat-pools")
             rep.case("cat %r" % (a,), len(boxes) >= 2)
+
+        # ---------------------------------------------------------------- values with a past
+        c03hist.run_history(rep, random.Random(rng.getrandbits(64)), oracle.ns, ask, Gen3, histories, quick)
+        c03hist.run_containers(rep, random.Random(rng.getrandbits(64)), oracle.ns, Gen3, quick)
 
         # ---------------------------------------------------------------- model answers
         answers = drv.ask_many(lines)
